@@ -44,7 +44,7 @@ Section Solver.
     ((if r0 <=? n0 then None else Some r0), None).
 
   (** solve_along_surface(half_b, c): a ~ 0, not on the surface.
-      [strict = true] is the code as it stands since commit 8462ce5 (`<= 0`,
+      [strict = true] is the code as it stands since commit cd06731 (`<= 0`,
       like every other branch); [strict = false] is the comparison before the
       repair (`result[0] < 0` dropped only negative values, so a start point
       exactly on the surface yielded the distance 0). *)
